@@ -44,6 +44,8 @@ Pending(kind, sent, arr) == SubSeq(arr, 1, Run(kind, sent, arr).used)
 
 (* ------------------------------ L1 (C08) ------------------------------- *)
 Count(arr, c) == Cardinality({i \in 1..Len(arr) : arr[i] = c})
+\* arr = everything that reached the writer before the requests expired (NOT only what arrived while the caller was still
+\* waiting: a put that gives up before its requests are answered or expired must not thereby escape this formula)
 C08_OkIffAck(kind, sent, arr, res) == (res = "ok") <=> (Count(arr, 0) > 0)
 C08_OkOnlyIfAck(kind, sent, arr, res) == (res = "ok") => (Count(arr, 0) > 0)
 C08_ConcurrencyOnlyIfAnswered(kind, sent, arr, res) ==
@@ -51,8 +53,9 @@ C08_ConcurrencyOnlyIfAnswered(kind, sent, arr, res) ==
    /\ (res = "NotMostRecent") => (kind = "mut" /\ Count(arr, 302) > 0)
 C08_QueryErrorOtherwise(kind, sent, arr, res) ==
    res \in {"ok", "CasFailed", "NotMostRecent", "Timeout", "NoClosestNodes", "ErrorResponse:301", "ErrorResponse:302"}
-\* the known finding: the put was told "failed" although an acknowledgement had arrived, because a 3xx majority came in first
-EarlyExitAfterAck(kind, sent, arr, res) == kind = "mut" /\ res \in {"CasFailed", "NotMostRecent"} /\ Count(arr, 0) > 0 /\ sent >= 5
+\* the known finding (KF-C08-1): the put was told "failed" although an acknowledgement arrived before its requests expired
+\* (before or after the verdict), because a 3xx majority was in first - the deliberate early exit of PutQuery::check
+EarlyExitAfterAck(kind, sent, arr, res) == kind = "mut" /\ res \in {"CasFailed", "NotMostRecent"} /\ Count(arr, 0) > 0
 
 (* ------------------------------ L1 (C17) ------------------------------- *)
 \* local rule table for a second put_mutable on a target with a put in flight:
